@@ -203,6 +203,16 @@ ALL = ['C%02d' % i for i in range(1, 21)]
 NOT_YET = 'check not built yet in this session (planned, see DESIGN.md §10)'
 
 
+def tie_sentence(pid):
+    import vlib
+    mods = sorted(m for m, v in vlib.TIES.items() if pid in v['props'])
+    if not mods:
+        return ''
+    n = sum(len(vlib.TIES[m]['theorems']) for m in mods)
+    return (' Translator ties re-checked by this check (lean/TrompModel/Tie/<module>.lean, %d theorems over functions regenerated from /repo on every run): %s.'
+            % (n, ', '.join(mods)))
+
+
 def main():
     checks = []
     for pid in ALL:
@@ -216,7 +226,7 @@ def main():
             evidence_file='evidence/%s.json' % pid,
             replay_cmd_template='python3 tools/check.py %s --replay {path}' % pid,
             engine=c.get('engine', 'lean-world'),
-            level_claimed=dict(category='proof', text=c['text'], design_ref=c['ref']),
+            level_claimed=dict(category='proof', text=c['text'] + tie_sentence(pid), design_ref=c['ref']),
             level_note=c.get('note', WORLD_NOTE.replace('{id}', pid)),
             technique=c['technique'],
         ))
